@@ -12,7 +12,7 @@ LEVEL = "exploration"
 TECHNIQUE = "bounded-exhaustive enumeration of every input sequence (all multisets in all orders) over a colliding-key record alphabet through run_sort, against a stable-sort reference"
 RULE = (
     "graphs: a two-chromosome bubble chain tagged (i) by the real order_gfa (pipeline composition) and (ii) by the harness with an extra "
-    "node carrying BO=NO=-1; records: an 18/19-record alphabet (strands + and -) whose keys collide pairwise in every prefix of (BO, NO, start) - equal BO / "
+    "node carrying BO=NO=-1; records: a 19/20-record alphabet (strands + and -) whose keys collide pairwise in every prefix of (BO, NO, start) - equal BO / "
     "different NO, equal (BO,NO) / different start, exact ties, a reverse-anchored record tying with a forward one, one untagged key, a "
     "second chromosome; inputs: every sequence of <=N records (N=4 quick, 5 thorough), i.e. every multiset in every order. "
     "evaluations = sort runs; non-trivial = sequences of >=2 records that are not already in sorted order or contain a tie."
@@ -33,7 +33,7 @@ NSHARD = {"quick": 16, "thorough": 48}
 
 
 def bounds(tier):
-    return {"max_records_per_file": 4 if tier == "quick" else 5, "alphabet": 19, "graphs": 3}
+    return {"max_records_per_file": 4 if tier == "quick" else 5, "alphabet": 20, "graphs": 3}
 
 
 # the strand column (the read's strand) has no part in the sort key; some records carry '-'
@@ -62,7 +62,8 @@ def alphabet(g, c1, c2, untagged):
         ("J", f">{s1}>{a}", 9, 11),  # two-digit starts: 9 < 10 numerically, "10" < "9" as strings
         ("K", f">{s1}>{a}", 10, 12),
         ("L", f">{s2}<{sc1[2]}", 1, 3),  # as many scaffold nodes forward as reversed: anchored on the first node
-        ("M", f">{sc1[2]}", 0, 2),  # sits between the two possible anchors of L
+        ("M", f">{sc1[2]}", 5, 7),  # sits between the two possible anchors of L
+        ("S", f"<{sc1[2]}", 1, 3),  # one scaffold node traversed in reverse: start = LN - end = 9, behind M although its path start is 1
         # exact key ties with E and F that differ in the derived tags: Q has sn 'unknown' (no reference node), Y has iv 1
         ("Q", f">{b}", 1, 2),
         ("Y", f">{b}>{s2}<{sc1[2]}", 1, 3),
